@@ -24,6 +24,10 @@ func (e *cpEngine) evalSlice(fr *cpFrame, x *ssa.Slice) cpVal {
 	switch b := e.get(fr, x.X).(type) {
 	case cpPtr:
 		if b.C != nil {
+			if u, isU := b.C.V.(cpUnk); isU && x.Low == nil && x.High == nil && u.Deps == "" {
+				// the whole of an array the fold knows only by name: still nameable
+				return cpUnk{ID: u.ID + "[:]"}
+			}
 			if a, ok := b.C.V.(cpArr); ok {
 				if x.High != nil && x.Low == nil && len(a.Elems) > 0 {
 					if u, isU := e.get(fr, x.High).(cpUnk); isU && e.varintBufs[u.ID] == a.Elems[0] {
@@ -79,7 +83,25 @@ func (e *cpEngine) evalSlice(fr *cpFrame, x *ssa.Slice) cpVal {
 			return b
 		}
 	}
-	return e.fresh("slice")
+	r := e.fresh("slice")
+	if e.trackAtoms && (x.Low != nil || x.High != nil) {
+		if e.bufInfo == nil {
+			e.bufInfo = map[string]cpBufInfo{}
+		}
+		of := ""
+		if u, isU := e.get(fr, x.X).(cpUnk); isU {
+			of = u.ID
+		}
+		bi := cpBufInfo{Of: of}
+		if x.High != nil {
+			bi.Len = e.get(fr, x.High)
+		}
+		if x.Low != nil {
+			bi.Low = e.get(fr, x.Low)
+		}
+		e.bufInfo[r.ID] = bi
+	}
+	return r
 }
 
 // cpKey renders a value as a map key, if it is fully known.
@@ -132,6 +154,10 @@ func cpKey(v cpVal) (string, bool) {
 	return "", false
 }
 
+// cpLookupMiss: lookups in maps whose contents the fold does not know find nothing (set around a fold that
+// is to be read with the registries empty).
+var cpLookupMiss bool
+
 func (e *cpEngine) evalLookup(fr *cpFrame, x *ssa.Lookup) cpVal {
 	m := e.get(fr, x.X)
 	kv := e.get(fr, x.Index)
@@ -169,6 +195,13 @@ func (e *cpEngine) evalLookup(fr *cpFrame, x *ssa.Lookup) cpVal {
 		}
 	}
 	if _, isNil := m.(cpNil); isNil && mt != nil {
+		if x.CommaOk {
+			return cpTuple{Vs: []cpVal{e.zero(mt.Elem()), cpBool{false}}}
+		}
+		return e.zero(mt.Elem())
+	}
+	if cpLookupMiss && mt != nil {
+		// folding with every unknown map (the registries) taken as empty
 		if x.CommaOk {
 			return cpTuple{Vs: []cpVal{e.zero(mt.Elem()), cpBool{false}}}
 		}
